@@ -104,6 +104,22 @@ DEFAULT_DATA_KEY = 'data'
 DEFAULT_HEADER_KEY = 'header'
 
 
+def _write_all(pipe, buf):
+    """Write every byte of `buf` (bytes or a 1-D uint8 array) to `pipe`.
+
+    `pipe.write` of a raw (unbuffered) stream, e.g. stdout under ``python -u`` /
+    ``PYTHONUNBUFFERED``, transfers at most one system call's worth of bytes
+    (0x7ffff000 on Linux) and returns the count, so keep going until done.
+    """
+    buf = memoryview(buf)
+    while len(buf):
+        nwritten = pipe.write(buf)
+        if nwritten is None:
+            # a non-blocking raw stream that accepts nothing
+            raise BlockingIOError('pipe is not ready for writing')
+        buf = buf[nwritten:]
+
+
 def unpack_to_pipe(
     asdf_fns,
     fields,
@@ -126,10 +142,18 @@ def unpack_to_pipe(
     afs = []
     for fn in asdf_fns:
         afs += [asdf.open(fn, mode='r', memmap=False, lazy_load=True)]
+    widths = {}
     for af in afs:
         for field in fields:
             if field not in af.tree[data_key]:
                 raise ValueError(f'Field "{field}" not found in "{af.uri}"')
+            # one item width is announced per field, so all files must agree on it
+            width = af.tree[data_key][field].dtype.itemsize
+            if widths.setdefault(field, width) != width:
+                raise ValueError(
+                    f'Field "{field}" has item width {width} in "{af.uri}" '
+                    f'but {widths[field]} in the preceding files'
+                )
 
     # begin IO loop
     nbytes_tot = 0
@@ -141,8 +165,8 @@ def unpack_to_pipe(
             _N = np.prod(af[data_key][field].shape)
             N += _N
             field_width = np.int32(af[data_key][field].dtype.itemsize)
-        pipe.write(N)
-        pipe.write(field_width)
+        _write_all(pipe, N.tobytes())
+        _write_all(pipe, field_width.tobytes())
         for af in afs:
             read_start_time = timer()
             arr = af[data_key][field][:]  # read + decompression happens here
@@ -150,7 +174,7 @@ def unpack_to_pipe(
             # the file may store the column as a strided view (shared block,
             # Fortran order, ...): the buffer protocol refuses those, so emit
             # the elements' bytes in C order (no copy when already contiguous)
-            pipe.write(np.ascontiguousarray(arr))
+            _write_all(pipe, np.ascontiguousarray(arr).reshape(-1).view(np.uint8))
             del arr
             gc.collect()
         nbytes_tot += N * field_width
